@@ -65,6 +65,18 @@ extern "C" void harness_main()
   p = cat3(p, ")\nR(", C, ", ", A, ")\n");
   q = cat3(q, ".db ", C, ", ", B, ", ", A, ", 7\n");
   q = cat3(q, ".db ", A, ", ", C, "\n");
+#elif T == 13   /* macro invoked inside .repeat: n copies of the expansion */
+  uint32_t n = 1 + symx_fork("n", 3);
+  char N[4]; sprintf(N, "%u", n);
+  p = cat3(p, ".macro M(x, y)\n.db x, y + 1\n.endm\n.db 1\n.repeat ", N, "\nM(", A, ", ", B);
+  p = cat3(p, ")\n.endr\n.db 2\n");
+  q = vp_append(q, ".db 1\n");
+  for (uint32_t i = 0; i < n; i++) q = cat3(q, ".db ", A, ", ", B, " + 1\n");
+  q = vp_append(q, ".db 2\n");
+#elif T == 14   /* a define passed through two macro levels, next to a plain argument */
+  p = cat3(p, ".define K ", A, "\n.macro IN(x)\n.db x + 1\n.endm\n.macro OUT(y)\nIN(y)\nIN(K)\n.db y\n.endm\nOUT(", B, ")\nOUT(K)\n.db 9\n");
+  q = cat3(q, ".db ", B, " + 1\n.db ", A, " + 1\n.db ", B, "\n");
+  q = cat3(q, ".db ", A, " + 1\n.db ", A, " + 1\n.db ", A, "\n.db 9\n");
 #elif T == 10   /* character argument */
   p = vp_append(p, ".define CH(x) x\n.db CH('A'), CH(','), CH(')')\n");
   q = vp_append(q, ".db 'A', ',', ')'\n");
